@@ -520,7 +520,7 @@ def main():
             defaults["tables"] = text
             json.dump(defaults, open(DEFAULTS_PATH, "w"))
             print("wrote tables to " + DEFAULTS_PATH)
-    except (ParseError, OSError, ValueError, KeyError, IndexError) as ex:
+    except Exception as ex:  # anything unexpected in the source: fall back, never crash
         print("gen_tables: could not extract (recorded translation used; tie by correspondence only): PAT processor (%s)" % str(ex).replace("\n", " "), file=sys.stderr)
         text = defaults.get("tables")
         if text is None:
